@@ -196,6 +196,8 @@ class Writer:
                 for x in items:
                     out += F(x)
                 return out
+            if how == "base" and is_ba:
+                return F(val)  # bytearray(X): starts as a copy of the byte string X
             raise Unsupported("container modified by %s" % (how,))
 
         if o.exact:
